@@ -106,6 +106,21 @@ func classifyLoop(h *ssa.BasicBlock, body map[*ssa.BasicBlock]bool) (kind, why s
 			}
 		case *ssa.UnOp:
 			if x.Op == token.MUL {
+				// load of a struct field (len(def.Fields) evaluated per iteration): nothing in the loop — directly or in
+				// a module function it calls — stores to that field of that struct type
+				if fa, ok := x.X.(*ssa.FieldAddr); ok {
+					if n, f, base, ok := fieldOf(fa); ok && n != nil && invariant(base, d+1) {
+						stored := false
+						for b := range body {
+							for _, in := range b.Instrs {
+								if fieldStoredBy(in, n, f, 0) {
+									stored = true
+								}
+							}
+						}
+						return !stored
+					}
+				}
 				// load of a cell: no store to that cell inside the loop
 				if al, ok := x.X.(*ssa.Alloc); ok {
 					for _, st := range storesToAlloc(al) {
@@ -799,4 +814,38 @@ func cellCursor(tested ssa.Value, h *ssa.BasicBlock, body map[*ssa.BasicBlock]bo
 		}
 	}
 	return "the cursor cell " + cellPath + " is assigned a child of itself on every iteration and the loop stops at nil", true
+}
+
+var fieldStoreMemo = map[string]bool{}
+
+// fieldStoredBy: the instruction stores to field f of struct n, or calls a module function that (transitively,
+// through static callees) does.
+func fieldStoredBy(in ssa.Instruction, n *types.Named, f string, depth int) bool {
+	switch x := in.(type) {
+	case *ssa.Store:
+		if fa, ok := x.Addr.(*ssa.FieldAddr); ok {
+			if n2, f2, _, ok := fieldOf(fa); ok && n2 == n && f2 == f {
+				return true
+			}
+		}
+	case ssa.CallInstruction:
+		g := x.Common().StaticCallee()
+		if g == nil || len(g.Blocks) == 0 || g.Pkg == nil || !strings.HasPrefix(g.Pkg.Pkg.Path(), modPath) || depth > 4 {
+			return false
+		}
+		key := g.String() + "|" + n.Obj().Name() + "." + f
+		if v, ok := fieldStoreMemo[key]; ok {
+			return v
+		}
+		fieldStoreMemo[key] = false
+		res := false
+		allInstrs(g, func(y ssa.Instruction) {
+			if !res && fieldStoredBy(y, n, f, depth+1) {
+				res = true
+			}
+		})
+		fieldStoreMemo[key] = res
+		return res
+	}
+	return false
 }
